@@ -421,8 +421,12 @@ func (g *gen) execInstr(fr *frame, cur *node, st *State, ins ssa.Instruction) *n
 		g.svAssign(cur, st, "$sent", "(Array Ref Int)", app("store", m, ch, app("+", app("select", m, ch), "1")))
 		g.svAssign(cur, st, "$sent_total", "Int", app("+", g.svGet(st, "$sent_total", "Int"), "1"))
 	case *ssa.Go:
-		// spawn: the callee's precondition must hold; its effects happen asynchronously
+		// spawn: the callee's precondition must hold now; what it modifies may change at any time from
+		// here on, and nothing it ensures may be relied on by the spawner - except clauses labelled
+		// [spawn...], which speak about the goroutine having been started
+		g.spawning = true
 		_, cur = g.execCall(fr, cur, st, x.Common(), x.Pos(), nil)
+		g.spawning = false
 	case *ssa.Lookup:
 		g.execLookup(fr, cur, st, x)
 	case *ssa.MapUpdate:
@@ -677,6 +681,9 @@ func (g *gen) strToBytes(n *node, st *State, s string) string {
 	m := g.svGet(st, "$bytes", "(Array Int Bytes)")
 	g.svAssign(n, st, "$bytes", "(Array Int Bytes)", app("store", m, id, app("s2b", s)))
 	n.assume(app("=", app("u_blen", app("s2b", s)), app("strlen", s)))
+	// string(([]byte)(s)) == s
+	g.c.declareFun("b2s", []string{"Bytes"}, "Str")
+	n.assume(app("=", app("b2s", app("s2b", s)), s))
 	return app("mkslice", id, "0", app("strlen", s), app("strlen", s))
 }
 
